@@ -72,7 +72,7 @@ def run(tier):
         if c10.KIND_TO_PROP.get(m["kind"]) == "C05":
             chk.violation({"kind": m["kind"], "type": m.get("type"), "query": m.get("query"), "what": m.get("what")}, m)
     # (b) program level
-    k = 5 if tier == "quick" else 12
+    k = 5 if tier == "quick" else 8
     n = 300 if tier == "quick" else 2500
     work = C.workdir("det")
     src = os.path.join(work, "in.ndjson")
